@@ -284,3 +284,81 @@ def copy_source(e):
 
 def handler_covers(h, accepted):
     return any(n in accepted for n in lib.handler_class_names(h))
+
+
+# ------------------------------------------------------------------ absence policy / control dependence
+def no_unreviewed(rule):
+    """True when no un-inlined, unreviewed helper is left in the analysed tree (an absence may then be definite)."""
+    return not getattr(rule.ctx.index, 'unreviewed', None)
+
+
+def absent(rule, construct, detail, loc='', expected=None, understood=True):
+    """Report a missing construct: a VIOLATION only if the surrounding code was fully understood and no unreviewed
+    helper could host the moved construct; otherwise UNDECIDED."""
+    if understood and no_unreviewed(rule):
+        rule.violation(construct, detail, loc, expected=expected)
+    else:
+        rule.undecided(construct, 'not found (%s); the enclosing code is not fully classified or unreviewed helpers remain: %s'
+                       % (detail[:120], ', '.join(getattr(rule.ctx.index, 'unreviewed', []) or ['-'])), loc)
+
+
+def only_calls(nodes, allowed):
+    """Every call under the given nodes has a callee name in `allowed` (so no unknown callee can host a moved check)."""
+    for root in nodes:
+        for n in ast.walk(root):
+            if isinstance(n, ast.Call) and nf.callee_name(n) not in allowed:
+                return False
+    return True
+
+
+def controlled_by(fi, test_stmt, positive, target_stmt):
+    """`target_stmt` is reachable only through the edge of `test_stmt` on which its condition is `positive`."""
+    cfg = cfg_of(fi.node)
+    tn = [n for n in cfg.nodes_of(test_stmt) if n.kind == 'test']
+    tg = cfg.nodes_of(target_stmt)
+    if not tn or not tg:
+        raise AnalysisError('no CFG node for `%s`' % short(test_stmt.test))
+    other = 'false' if positive else 'true'
+    # block every edge of the test except the wanted one (the unwanted edge may be labelled false/back/...)
+    wanted = 'true' if positive else 'false'
+    blocked = []
+    for t, lab in tn[0].succs:
+        if positive and lab != 'true' and lab != 'exc':
+            blocked.append((tn[0], t, lab))
+        if not positive and lab == 'true':
+            blocked.append((tn[0], t, lab))
+    reach = cfg.reach([cfg.entry], blocked_edges=blocked)
+    # with the *wanted* edge removed instead, the target must be unreachable
+    blocked2 = []
+    for t, lab in tn[0].succs:
+        if positive and lab == 'true':
+            blocked2.append((tn[0], t, lab))
+        if not positive and lab != 'true' and lab != 'exc':
+            blocked2.append((tn[0], t, lab))
+    reach2 = cfg.reach([cfg.entry], blocked_edges=blocked2)
+    return not any(n in reach2 for n in tg)
+
+
+def truth_test(test, name):
+    """+1 if the canonical test holds exactly when `name` is truthy / not None, -1 for the negation, 0 otherwise."""
+    t = nf.canon(test)
+    if m(name, t) is not None or m("%s is not None" % name, t) is not None or m("%s != None" % name, t) is not None:
+        return 1
+    if m("not %s" % name, t) is not None or m("%s is None" % name, t) is not None or m("%s == None" % name, t) is not None:
+        return -1
+    return 0
+
+
+def aliases(fn, name):
+    """Names that denote the same object as `name` through plain `a = b` assignments (either direction)."""
+    out = {name}
+    changed = True
+    while changed:
+        changed = False
+        for s in walk_own(fn):
+            if isinstance(s, ast.Assign) and len(s.targets) == 1 and isinstance(s.targets[0], ast.Name) and isinstance(s.value, ast.Name):
+                a, b = s.targets[0].id, s.value.id
+                if (a in out) != (b in out):
+                    out |= {a, b}
+                    changed = True
+    return out
